@@ -22,7 +22,7 @@ vars == <<sc>>
 Z == "0"
 OpRec(op, id, mode, m, who, val, val2, amt, grantee, to, value, body) ==
     [op |-> op, id |-> id, mode |-> mode, m |-> m, who |-> who, val |-> val, val2 |-> val2, amt |-> amt,
-     grantee |-> grantee, to |-> to, value |-> value, height |-> 1, body |-> body, alt |-> <<>>]
+     grantee |-> grantee, to |-> to, value |-> value, height |-> 1, body |-> body, alt |-> <<>>, rt |-> FALSE, rev |-> FALSE]
 Pc(id, mode, m, who, amt)       == OpRec("pc", id, mode, m, who, 0, 1, amt, "C0", "W", Z, <<>>)
 PcG(id, mode, m, grantee, amt)  == OpRec("pc", id, mode, m, "S", 0, 1, amt, grantee, "W", Z, <<>>)
 CallC(id, mode, value, body)    == OpRec("call", id, mode, "-", "-", 0, 0, Z, "-", "-", value, body)
@@ -59,7 +59,7 @@ GrantsFor(m, c) == IF TypeOf(m) = "-" THEN NoGrant ELSE <<[Grant(TypeOf(m), "", 
 Setup(signer, wdS, grants, value) ==
     [signer |-> signer, wd |-> [S |-> wdS], grants |-> grants, delegS |-> "1000000000000000000000",
      delegT |-> "1000000000000000000000", ubdS |-> "5000000", fundC |-> "5000000000000000000", warm |-> 3,
-     delegC |-> "0", denom2 |-> FALSE, acl |-> FALSE, priorLog |-> FALSE, fresh |-> FALSE]
+     delegC |-> "0", denom2 |-> FALSE, acl |-> FALSE, priorLog |-> FALSE, fresh |-> FALSE, noNFund |-> FALSE]
 SetupC(wdS, grants, d2) == [Setup("a1", wdS, grants, Z) EXCEPT !.delegC = "700000000000000000000", !.denom2 = d2]
 
 \* the same as an EIP-2930 transaction whose access list makes every callee warm (no access-list entry is
@@ -67,6 +67,8 @@ SetupC(wdS, grants, d2) == [Setup("a1", wdS, grants, Z) EXCEPT !.delegC = "70000
 Warm(S) == {[x EXCEPT !.setup.acl = TRUE] : x \in S}
 \* ... preceded in its block by a transaction that emits logs (the log index of the block is not 0)
 Later(S) == {[x EXCEPT !.setup.priorLog = TRUE] : x \in S}
+\* the addresses at which the tree's CREATEs deploy hold nothing and have no account before the transaction
+Bare(S) == {[x EXCEPT !.setup.noNFund = TRUE] : x \in S}
 
 \* ----- C02: no frame reverts on purpose ------------------------------------------------
 C02Direct == {[setup |-> Setup(IF m = "withdrawCommission" THEN "v1" ELSE "a1", w, NoGrant, Z), top |-> Pc(0, "catch", m, who, Amt)] :
@@ -198,7 +200,22 @@ C05NestedCreate ==
         CallC(0, "catch", Z, <<CallC(1, "catch", "400", <<CreateN(2, "catch", "100", <<Store(3)>>), Query(7), Rev(4)>>), Send(8, "N2", "70"), Store(5)>>),
         CallC(0, "catch", Z, <<CreateN(2, "catch", Z, <<Pc(3, "catch", "delegate", "S", Amt), Rev(4)>>), Store(5)>>),
         CallC(0, "catch", Z, <<CreateN(2, "bubble", "300", <<Rev(4)>>), Store(5)>>) }}
-C05All == Later(C05Logs) \cup C05NestedCreate \cup Warm(C05NestedCreate) \cup C05Logs \cup C05Failed \cup C05Destroy \cup C02Plain \cup C02PcValue \cup Warm(C02Plain \cup C05Destroy \cup C02PcValue)
+\* a contract deployed by the transaction is called later in the same transaction: its code creates a contract
+\* (its own nonce moves) and reverts or stops; alone, inside a frame that is reverted afterwards, twice in a row
+CreateRt(id, mode, value, body) == [CreateN(id, mode, value, body) EXCEPT !.rt = TRUE]
+NCall(id, mode, to, rev) == [OpRec("ncall", id, mode, "-", "-", 0, 0, Z, "-", to, Z, <<>>) EXCEPT !.rev = rev]
+C05NewCall ==
+    {[setup |-> Setup("a1", "self", NoGrant, Z), top |-> t] : t \in {
+        CallC(0, "catch", "900", <<CreateRt(2, "catch", "300", <<Store(3)>>), NCall(4, "catch", "N2", TRUE), Store(6)>>),
+        CallC(0, "catch", "900", <<CreateRt(2, "catch", Z, <<Log(3)>>), NCall(4, "catch", "N2", FALSE), Store(6)>>),
+        CallC(0, "catch", Z, <<CreateRt(2, "catch", Z, <<Store(3)>>), NCall(4, "catch", "N2", FALSE), NCall(5, "catch", "N2", TRUE), Store(6)>>),
+        CallC(0, "catch", Z, <<CreateRt(2, "catch", Z, <<Store(3)>>), NCall(4, "catch", "N2", TRUE), NCall(5, "catch", "N2", FALSE), Log(7)>>),
+        CallC(0, "catch", Z, <<CreateRt(2, "catch", "300", <<Store(3)>>), CallC(1, "catch", Z, <<NCall(4, "catch", "N2", FALSE), Rev(5)>>), Store(6)>>),
+        CallC(0, "catch", Z, <<CreateRt(2, "catch", Z, <<Store(3)>>), CallC(1, "catch", Z, <<NCall(4, "bubble", "N2", TRUE), Store(5)>>), Store(6)>>),
+        CallC(0, "catch", Z, <<CallC(1, "catch", "400", <<CreateRt(2, "catch", "100", <<Store(3)>>), NCall(4, "catch", "N2", FALSE), Rev(5)>>), NCall(7, "catch", "N2", FALSE), Store(6)>>),
+        \* (a constructor that reverts deploys nothing: the later call meets an address without code)
+        CallC(0, "catch", Z, <<CreateRt(2, "catch", "300", <<Store(3), Rev(8)>>), NCall(4, "catch", "N2", TRUE), NCall(5, "catch", "N2", FALSE), Store(6)>>) }}
+C05All == C05NewCall \cup Warm(C05NewCall) \cup Bare(C05NewCall \cup C05NestedCreate) \cup Later(C05Logs) \cup C05NestedCreate \cup Warm(C05NestedCreate) \cup C05Logs \cup C05Failed \cup C05Destroy \cup C02Plain \cup C02PcValue \cup Warm(C02Plain \cup C05Destroy \cup C02PcValue)
           \cup UNION {{[setup |-> Setup("a1", w, GrantsFor(m, x.c), Z), top |-> x.t] : w \in {"self", "W"}, x \in C05Reentrant(m) \cup C05Create(m)} :
                        m \in {"delegate", "setWithdrawAddress", "withdrawRewards", "approve", "query"}}
           \cup UNION {{[setup |-> Setup("a1", w, GrantsFor(m, x.c), Z), top |-> x.t] : w \in {"self", "W"}, x \in C05Trees(m)} : m \in RevMethods}
@@ -251,7 +268,7 @@ C04Ibc ==
 
 Scenarios == CASE Family = "C02" -> C02Direct \cup C02ViaContract \cup C02Dirty \cup C02Nested \cup C02Forward \cup C02Plain \cup C02Own \cup C02Create
                                     \cup C02PcValue \cup C05Destroy \cup Warm(C02Plain \cup C02PcValue \cup C02Forward)
-                                    \cup {x \in C05NestedCreate \cup Warm(C05NestedCreate) : ~HasPcOp(x.top)} \cup C02Fresh
+                                    \cup {x \in C05NestedCreate \cup Warm(C05NestedCreate) : ~HasPcOp(x.top)} \cup C02Fresh \cup C05NewCall \cup Bare(C05NewCall)
                [] Family = "C05" -> C05All
                [] Family = "C04" -> C04Matrix \cup C04Sequences \cup C04Reverted \cup C04Ibc \cup C04WdContract \cup C04Mixed
                [] Family = "C04small" -> C04Matrix \cup C04Reverted
@@ -262,7 +279,7 @@ RECURSIVE Contracts(_)
 ContractsOp(o) == IF HasBody(o) THEN {ContractOf(o)} \cup Contracts(o.body) \cup Contracts(o.alt) ELSE {}
 Contracts(body) == IF body = <<>> THEN {} ELSE ContractsOp(body[1]) \cup Contracts(Tail(body))
 RECURSIVE Slots(_, _)
-SlotsOp(self, o) == (IF o.op \in {"pc", "call", "recall", "sstore", "create"} THEN {<<self, "s" \o ToString(o.id)>>} ELSE {})
+SlotsOp(self, o) == (IF o.op \in {"pc", "call", "recall", "sstore", "create", "ncall"} THEN {<<self, "s" \o ToString(o.id)>>} ELSE {})
                     \cup (IF HasBody(o) THEN Slots(ContractOf(o), o.body) \cup Slots(ContractOf(o), o.alt) ELSE {})
 Slots(self, body) == IF body = <<>> THEN {} ELSE SlotsOp(self, body[1]) \cup Slots(self, Tail(body))
 
@@ -288,14 +305,15 @@ AbstractPre(x) ==
                             IF t = "ibc" THEN <<IF h.val = 0 THEN "channel-0" ELSE "channel-" \o ToString(5 + h.val)>>
                                               \o (IF h.alloc2 = "" THEN <<>> ELSE <<"channel-1">>)
                             ELSE <<ValName(h.val)>>
-    IN [ bank |-> [a \in as |-> IF a = "F" THEN "0" ELSE IF a \in cs THEN "5000000000" ELSE "900000000000"],
+        bare(a) == a = "F" \/ (x.setup.noNFund /\ SubSeq(a, 1, 1) = "N")
+    IN [ bank |-> [a \in as |-> IF bare(a) THEN "0" ELSE IF a \in cs THEN "5000000000" ELSE "900000000000"],
          mods |-> [m \in {"bonded", "notbonded", "distr", "feecollector", "evm", "escrow"} |-> "70000000000"],
          supply |-> "100000000000000",
          deleg |-> [a \in as |-> [v \in vs |-> IF (a \in {"S", "T"} /\ v = "V1") \/ own(a, v) THEN "50000000" ELSE Z]],
          ubd |-> [a \in as |-> [v \in vs |-> IF a = "S" /\ v = "V1" THEN "5000000" ELSE Z]],
          rewards |-> [a \in as |-> [v \in vs |-> IF (a \in {"S", "T"} /\ v = "V1") \/ own(a, v) THEN "7777" ELSE Z]],
          wd |-> [a \in as |-> IF a \in DOMAIN x.setup.wd /\ x.setup.wd[a] # "self" THEN x.setup.wd[a] ELSE a],
-         exists |-> [a \in as |-> a # "F"],
+         exists |-> [a \in as |-> ~bare(a)],
          grants |-> [g \in as |-> [e \in as \ {g} |-> [t \in StakeTypes |-> gr(g, e, t)]]],
          grantVals |-> [g \in as |-> [e \in as \ {g} |-> [t \in StakeTypes |-> gv(g, e, t)]]],
          grantExp |-> [g \in as |-> [e \in as \ {g} |-> [t \in StakeTypes |-> "-"]]],
